@@ -1,3 +1,4 @@
+import SignaloModel.Proofs.BridgeHull
 import SignaloModel.Proofs.BridgeSimple
 import SignaloModel.Proofs.SmoothProofs
 /-!
@@ -6,6 +7,7 @@ import SignaloModel.Proofs.SmoothProofs
 Property theorems for C14 (statements are printed by `#check`, axioms by `#check @Registry.abRec_snoc
 #check @Registry.ab_state
 #check @Registry.alphaBeta_registry_correct
+#check @Registry.alphaBeta_registry_const
 #print axioms`;
 `bin/check C14` re-elaborates this file on every run and audits the axiom lists).
 -/
@@ -19,3 +21,4 @@ open SignaloModel
 #print axioms Registry.abRec_snoc
 #print axioms Registry.ab_state
 #print axioms Registry.alphaBeta_registry_correct
+#print axioms Registry.alphaBeta_registry_const
